@@ -14,7 +14,7 @@ import time
 import z3
 
 
-def to_smt2(assertions, logic='QF_FP'):
+def to_smt2(assertions, logic='QF_BVFP'):
   s = z3.Solver()
   s.add(assertions)
   return f'(set-logic {logic})\n' + s.to_smt2()
@@ -53,7 +53,11 @@ def parse_fp(txt):
 
 def check_fp(assertions, names=(), timeout_s=300, solvers=('cvc5', 'z3')):
   """returns dict(status, model {name: float}, solver, wall_s)"""
-  text = to_smt2(assertions)
+  return check_text(to_smt2(assertions), names, timeout_s, solvers)
+
+
+def check_text(text, names=(), timeout_s=300, solvers=('cvc5', 'z3')):
+  """same, for an already rendered SMT-LIB2 text (safe to call from worker threads: no z3 API use)"""
   t0 = time.time()
   d = tempfile.mkdtemp(prefix='vp_fp_')
   try:
